@@ -295,6 +295,8 @@ static void xml_show_skip(TestReporter *reporter, const char *file, int line) {
     xmlTextWriterStartElement(child_output_writer, XMLSTRING("skipped"));
     xmlTextWriterEndElement(child_output_writer); // </skipped>
     xmlTextWriterFlush(child_output_writer);
+    /* ... all the way to the file, the process may be killed before it exits */
+    fflush(child_output_tmpfile);
 }
 
 static xmlChar* xml_secure_vprint(const char *format, va_list ap)
@@ -356,6 +358,8 @@ static void xml_show_fail(TestReporter *reporter, const char *file, int line,
     xmlTextWriterEndElement(child_output_writer); // </location>
     xmlTextWriterEndElement(child_output_writer); // </failure>
     xmlTextWriterFlush(child_output_writer);
+    /* ... all the way to the file, the process may be killed before it exits */
+    fflush(child_output_tmpfile);
 }
 
 static xmlAttrPtr xmlFormatProp(xmlNodePtr node, const xmlChar* name, const char *format, ...)
